@@ -43,9 +43,12 @@ pub fn swarm(ctx: &mut Ctx, o: SwarmOpts) -> NetProfile {
     let head_pct = ctx.plan_pick(&[100u8, 90, 50, 0]);
     let preempt_pm = if o.allow_preempt { ctx.plan_pick(&[0u16, 20, 200]) } else { 0 };
     let spurious = o.allow_spurious && ctx.plan_bool();
+    // one run in four holds one task back (ids 1..12 cover accept loops, handshakes, readers and
+    // the first scripted peers); it is released with probability 0.5 % or 5 % per step
+    let starve = if ctx.plan(4) == 1 { Some((1 + ctx.plan(12) as usize, ctx.plan_pick(&[5u16, 50]))) } else { None };
     let p = NetProfile { cap, read_chunk, write_chunk, yield_pm, latency, deliver_chunk };
     ctx.sim.rt.net.borrow_mut().profile = p;
-    ctx.sim.rt.policy.set(rt::Policy { head_pct, preempt_pm, spurious });
+    ctx.sim.rt.policy.set(rt::Policy { head_pct, preempt_pm, spurious, starve });
     p
 }
 
